@@ -5,7 +5,6 @@ import numpy as np
 from .. import core, gen
 
 ID = 'C17'
-FOUNDATIONS = ['harness.foundation.concurrent', 'harness.foundation.soak']   # the property's own functions under concurrent calls (validation; proofs in C12)
 LEVEL = 'proof'
 RULE = ('corpus; structured random 2-D images with even sides 2..64 (square and not, biased to small sizes and powers of '
         'two) x float32/float64/integer dtypes x seven layouts x preserve_energy on/off x inline on/off x all ten '
